@@ -76,9 +76,19 @@ def instances(tier, seed):
                 for order in ("names", "reversed"):
                     yield {"kind": "collision", "name": name, "tset": tset, "N": N, "placement": placement,
                            "target": tname, "dict_order": order}
-    # (exact chains are built for single-topology 2-clique networks only: with two topologies one proposal iteration
-    #  contains an unbounded free-retry loop, and single-topology triangle scenarios with distinguishable classes need
-    #  >= 15 edges, whose closures are out of reach; run_dtmc keeps a "dtmc-multi" mode for experiments)
+    # exact chains for scenarios with multi-edge corners (thorough only). With two topologies one proposal iteration
+    # contains an unbounded free-retry loop (partner of another topology): the inner-loop hook cuts it and the surviving
+    # leaves are re-weighted exactly (checked: re-weighted probabilities sum to 1). On these scenarios (two excess classes
+    # per topology) the accepted-swap chain turned out to be insensitive to the acceptance rule - no admitted initial
+    # state distinguishes the documented ratio from its inverse - so they add coverage of the chain construction, not
+    # detection power for acceptance errors on multi-edge corners (see DESIGN.md section 13, "Not detected").
+    if tier == "thorough":
+        for name in ("two-triangles-one-with-pendants", "three-triangles-two-decorated", "two-diamonds-one-decorated",
+                     "two-4-cliques-one-decorated"):
+            sc = [x for x in c11.SCENARIOS if x[0] == name][0]
+            for kind in ("strong-assortative", "strong-disassortative"):
+                yield {"kind": "dtmc-multi", "name": sc[0], "tset": sc[1], "N": sc[2],
+                       "placement": [[k, list(vs)] for k, vs in sc[3]], "target_kind": kind, "search_limit": 1}
     for i, sc in enumerate(DTMC_SCENARIOS):
         if tier not in sc[4]:
             continue
@@ -277,12 +287,24 @@ def one_iteration(state, names, target, search_limit, multi=False):
     outer = [0]
     seqs = []
 
+    last_inner = [None]
+    retry = [False]
+
     def hook(kind, *args):
         fired[0] += 1
         if kind == "outer":
             outer[0] += 1
+            last_inner[0] = None
             if outer[0] >= 2:
                 engine.cut_now("end of one proposal iteration")
+        elif multi:
+            # a second pass through the inner loop head with an unchanged search count is the free retry taken when
+            # the drawn partner has another topology: cut there; the surviving leaves are re-weighted below
+            sc = args[-1]
+            if last_inner[0] is not None and sc == last_inner[0]:
+                retry[0] = True
+                engine.cut_now("free retry")
+            last_inner[0] = sc
 
     def observer(kind, seq):
         if kind == "choice":
@@ -291,17 +313,43 @@ def one_iteration(state, names, target, search_limit, multi=False):
     acc = {}     # prefix -> (S', leaf prob, threshold)
     rej = {}     # prefix -> [leaf prob, threshold, proposed state computed by the harness]
 
+    n_edges = len(state[1])
+    top_count = {}
+    for u_, v_, top_, mid_ in state[1]:
+        top_count[top_] = top_count.get(top_, 0) + 1
+    top_of = {(u_, v_): top_ for u_, v_, top_, mid_ in state[1]}
+    total_corrected = [Fraction(0)]
+
     def body():
         outer[0] = 0
+        last_inner[0] = None
+        retry[0] = False
         del seqs[:]
         registry.copies.clear()
         return mcmc.run_rewire(state, names, target, 0, search_limit, registry)[1]
+
+    def corrected(leaf):
+        """Probability of the leaf under the real process, in which a partner draw is repeated until its topology
+        matches: every partner draw of a surviving leaf is uniform over the edges of e0's topology."""
+        if not multi:
+            return leaf.prob
+        pts = leaf.run.points
+        draws = [pt.taken for pt in pts if pt.label == "choice"]
+        if not draws or not seqs:
+            return leaf.prob
+        e0 = tuple(seqs[0][draws[0]])
+        k = top_count.get(top_of.get(e0), n_edges)
+        return leaf.prob * Fraction(n_edges, k) ** (len(draws) - 1)
 
     def on_leaf(leaf):
         pts = leaf.run.points
         upos = [i for i, pt in enumerate(pts) if pt.label.startswith("U<")]
         if leaf.exception is not None:
             raise engine.InfraError(f"rewire raised {leaf.exception!r} during the DTMC exploration")
+        if multi and retry[0]:
+            return   # free-retry branch: its mass is redistributed by the re-weighting
+        lp = corrected(leaf)
+        total_corrected[0] += lp
         if not upos:
             if not leaf.cut:
                 raise engine.InfraError("accepted swap without a uniform comparison")
@@ -318,7 +366,7 @@ def one_iteration(state, names, target, search_limit, multi=False):
             guess = proposed_state_c2(state, tuple(e0), tuple(e1))
         if leaf.cut:
             cur = rej.setdefault(prefix, [0, thr, guess])
-            cur[0] += leaf.prob
+            cur[0] += lp
         else:
             post = mcmc.coarse(leaf.outcome)
             if multi:
@@ -330,7 +378,7 @@ def one_iteration(state, names, target, search_limit, multi=False):
                                                                             pre=state):
                         post = rep
                 guess = None
-            acc[prefix] = (norm_ids(post), leaf.prob, thr, guess)
+            acc[prefix] = (norm_ids(post), lp, thr, guess)
 
     old = getattr(mod, "_VERIF_HOOK", "absent")
     if old == "absent":
@@ -346,6 +394,8 @@ def one_iteration(state, names, target, search_limit, multi=False):
     LAST_LEAVES[0] = st.leaves
     if st.mass + st.cut_mass != 1:
         raise engine.InfraError(f"one-iteration exploration lost probability mass: {st.mass + st.cut_mass}")
+    if multi and total_corrected[0] != 1:
+        raise engine.InfraError(f"re-weighted leaf probabilities sum to {total_corrected[0]}, not 1")
     proposals = []
     for prefix, (post, p, thr, guess) in acc.items():
         if guess is not None and guess != post:
